@@ -113,6 +113,54 @@ def rule_lw_sib(ctx, R, arch, FI):
     R.check(not missing, '%s handlers for all instructions' % arch, ARCH[arch]['unit'], expected='30 handlers', found='missing %s' % missing, rule='LW-SIB')
 
 
+def rule_lw_value(ctx, R, arch):
+    """the value stored in the last-writer table is the identity of the instruction being translated (its index, or the code position reached after it),
+    never something read from the table or computed from other instructions"""
+    F, hs = handlers(ctx, arch)
+    R.rule('LW-VALUE', 'every mark a handler puts into the last-writer table (registerUsage / reg_changed_offset / last_modified) is the current instruction: its index parameter, or the code position after the words just emitted; '
+           'a CBRANCH target derived from an older mark would re-execute the instruction that wrote the register', min_instances=15)
+    n = 0
+    for name, h in sorted(hs.items()):
+        f = h.f
+        ok_ids = set()
+        ps = f.get('params') or []
+        if arch in ('x86',) and len(ps) >= 2:
+            ok_ids.add(ps[1]['id'])
+        elif arch == 'rv64' and len(ps) >= 3:
+            ok_ids.add(ps[2]['id'])
+        elif arch == 'a64' and len(ps) >= 2:
+            ok_ids.add(ps[1]['id'])
+        # locals initialised from the position / index, and the cursor the emit macros write through
+        for x in walk(f['body']):
+            if x['k'] == 'Decl':
+                for d in x['d']:
+                    if d.get('init') is not None and ref_id_(d['init']) in ok_ids:
+                        ok_ids.add(d['id'])
+        if arch == 'rvv':
+            for c in calls(f['body']):
+                if c.get('name') == 'memcpy' and c.get('a') and ref_id_(c['a'][0]) is not None:
+                    ok_ids.add(ref_id_(c['a'][0]))
+            for x in walk(f['body']):
+                # the loop index of the generator is also the instruction's identity
+                pass
+        for x in walk(f['body']):
+            if x['k'] == 'Assign':
+                l = strip_all(x['l'])
+                if l['k'] == 'Idx' and show(l['b']).split('.')[-1].split('>')[-1] in jitfacts.MARK_TABLES:
+                    n += 1
+                    rid = ref_id_(x['r'])
+                    R.check(rid is not None and rid in ok_ids, '%s %s: %s' % (arch, name, show(l)[:50]), loc(x, f), expected='the index / code position of the instruction being translated', found=show(x['r'])[:80])
+    if n < 15:
+        raise AnalysisBroken('LW-VALUE(%s): only %d marks found' % (arch, n))
+
+
+def ref_id_(n):
+    n = strip_all(n)
+    while n['k'] == 'Cast':
+        n = strip_all(n['e'])
+    return n.get('id') if n['k'] == 'Ref' else None
+
+
 _HS = {}
 
 
@@ -298,8 +346,7 @@ def rule_jitmask_x86(ctx, R):
     f = F.func('randomx::JitCompilerX86::genAddressReg')
     tab = mask_table(f)
     R.check(tab == {frozenset([('mem', True)]): 'L1', frozenset([('mem', False)]): 'L2'}, 'genAddressReg mask', '%s:%d' % (f['file'], f['line']), expected='mod.mem ? L1 : L2', found=sorted((sorted(k), v) for k, v in tab.items()))
-    e32 = [c for c in calls(f['body']) if c.get('name') == 'emit32']
-    R.check(len(e32) >= 2 and showv(e32[0]['a'][0]).endswith('getImm32()'), 'genAddressReg displacement', '%s:%d' % (f['file'], f['line']), expected='emit32(instr.getImm32())', found=[showv(c['a'][0]) for c in e32])
+    # (how the displacement is encoded is decided on the emitted bytes by X86-MEM-HSEM)
     f = F.func('randomx::JitCompilerX86::genAddressRegDst')
     tab = mask_table(f)
     slc_ = F.const('randomx::StoreL3Condition')
@@ -360,7 +407,7 @@ def rule_cfr_x86(ctx, R, FI):
     f = h.f
     where = '%s:%d' % (f['file'], f['line'])
     R.rule('CFR-SIB', 'x86 h_CFROUND: rotates so that the two mode bits land on MXCSR bits 13-14, applies the v2 test only under the v2 flag with the interpreter\'s bit mask (60) shifted by 13, '
-           'and loads MXCSR with (x & 0x6000) | rx_mxcsr_default', min_instances=5)
+           'and loads MXCSR with (x & 0x6000) | rx_mxcsr_default', min_instances=3)
     from rules.driver import reset_word, CSR_CTRL
     _f, _kb, _n = reset_word(F)
     if (_kb.ones | _kb.zeros) & CSR_CTRL != CSR_CTRL:
@@ -381,22 +428,9 @@ def rule_cfr_x86(ctx, R, FI):
     ex = FI.func('randomx::BytecodeMachine::exe_CFROUND')
     im = [val(x['r']) for x in walk(ex['body']) if x['k'] == 'Bin' and x['op'] == '&' and val(x['r']) is not None and val(x['r']) not in (63,) and 'lags' not in show(x['l'])]
     R.check(len(im) == 1 and dec2[0][1] == im[0] << 13, 'x86 CFROUND v2 test mask', '%s:%d' % (arr2['file'], arr2['line']), expected='interpreter mask %s << 13' % im, found=hex(dec2[0][1]))
-    # rotate count: (13 - (imm & 63)) & 63, i.e. rol by 13 - imm == ror by imm then shift left 13
-    rot = [d for x in walk(f['body']) if x['k'] == 'Decl' for d in x['d'] if d['name'] == 'rotate' or 'getImm32' in show(d.get('init'))]
-    R.check(len(rot) == 1 and showv(rot[0]['init']) == '((13 - (instr.getImm32() & 63)) & 63)', 'x86 CFROUND rotate count', where, expected='(13 - (imm32 & 63)) & 63 with rol', found=[showv(d['init']) for d in rot])
-    # v2 gate guards exactly the test + short jump over the MXCSR load
-    gate = [x for x in walk(f['body']) if x['k'] == 'If' and 'RANDOMX_FLAG_V2' in show(x['c']) or (x['k'] == 'If' and 'vmFlags' in show(x['c']))]
-    okg = False
-    found = None
-    if len(gate) == 1:
-        cs = calls(gate[0]['t'])
-        found = [show(c) for c in cs]
-        okg = ([c.get('name') for c in cs] == ['emit', 'emitByte', 'emitByte'] and 'TEST_EAX_60SL13' in show(cs[0]) and showv(cs[2]['a'][0]) == str(len(bs)) and gate[0].get('e') is None
-               and val(cs[1]['a'][0]) == 0x75)
-    R.check(okg, 'x86 CFROUND v2 gate', where, expected='if (v2) { test eax, 60<<13; jnz +sizeof(AND_OR_MOV_LDMXCSR) }', found=found)
-    # the final emit is unconditional
-    last = f['body']['s'][-1]
-    R.check('AND_OR_MOV_LDMXCSR' in show(last), 'x86 CFROUND loads MXCSR last', where, expected='emit(AND_OR_MOV_LDMXCSR) as last statement', found=show(last))
+    # rotation, v2 gate and the position of the MXCSR load are decided on the emitted bytes by X86-CFR-BITS (rules/x86hsem.py)
+    from rules import x86hsem
+    x86hsem.rule_cfround(ctx, R, FI)
 
 
 def v2_gates(F, f):
